@@ -107,9 +107,9 @@ class LunrIndexWriter:
             assert ob.parsed_docstring is not None
             try:
                 doc = ' '.join(node2stan.gettext(ob.parsed_docstring.to_node()))
-            except NotImplementedError:
+            except Exception:
                 # some ParsedDocstring subclass raises NotImplementedError on calling to_node()
-                # Like ParsedPlaintextDocstring.
+                # Like ParsedPlaintextDocstring. Other failures are reported when the docstring is rendered.
                 doc = source.docstring
         return doc
 
